@@ -241,14 +241,18 @@ def ret_decl(r):
         return "const std::string &", ""
     if k == "str_cref_len":
         return "const std::string &", " +len(%d)" % r["N"]
+    if k == "ptr_scalar":
+        return "%s *" % r["T"], " +deref(scalar)"
     if k == "arr_ptr":
-        return "%s *" % r["T"], " +dimension(%s)+deref(%s)%s" % (r["len"], r["deref"], "+owner(caller)" if r.get("owner") == "caller" else "")
+        return "%s *" % r["T"], " +dimension(%s)+deref(%s)%s%s" % (r["len"], r["deref"], "+owner(caller)" if r.get("owner") == "caller" else "",
+                                                                  "+free_pattern(%s)" % r["free_pattern"] if r.get("free_pattern") else "")
     if k == "str_ptr_own":
         return "const std::string *", " +owner(caller)"
     if k == "vec_val":
-        return "std::vector<%s>" % r["T"], " +rank(1)"
+        return "std::vector<%s>" % r["T"], ""
     if k == "cls_ptr":
-        return "%s *" % r["cls"], (" +owner(caller)" if r.get("owner") == "caller" else "")
+        return "%s *" % r["cls"], (" +owner(caller)" if r.get("owner") == "caller" else "") + (
+            "+free_pattern(%s)" % r["free_pattern"] if r.get("free_pattern") else "")
     if k == "cls_val":
         return r["cls"], ""
     raise ValueError(k)
@@ -294,7 +298,10 @@ def library_yaml(lib):
             decls.append({"decl": "class %s" % f["cls"],
                           "declarations": [dict({"decl": func_decl(g)}, **g.get("yaml", {})) for g in members]})
         else:
-            decls.append(dict({"decl": func_decl(f)}, **f.get("yaml", {})))
+            e = dict({"decl": func_decl(f)}, **f.get("yaml", {}))
+            if f.get("extern_c") and lib["language"] == "c++":
+                e["options"] = dict(e.get("options") or {}, C_extern_C=True)
+            decls.append(e)
     d = {"library": lib["name"], "cxx_header": lib["name"] + (".hpp" if lib["language"] == "c++" else ".h"),
          "language": lib["language"], "options": dict(lib.get("options") or {})}
     if lib.get("format"):
@@ -302,6 +309,8 @@ def library_yaml(lib):
     if lib.get("namespace"):
         d["namespace"] = lib["namespace"]
     d["declarations"] = decls
+    if lib.get("patterns"):
+        d["patterns"] = dict(lib["patterns"])
     return d
 
 
@@ -452,6 +461,10 @@ def impl_function(f, lang, qual=""):
         lines.append("    char vfb[64]; vf_out_str(vfb, 40, %s); std::string vfR(vfb); vf_log_s(\"ret\", vfR.data(), (long)vfR.size());" % dr)
         lines.append("    vf_end();")
         lines.append("    return vfR;")
+    elif r["kind"] == "ptr_scalar":
+        lines.append("    static %s vfR; vfR = %s; %s" % (c_type(r["T"], lang), out_expr(r["T"], dr), log_scalar(r["T"], "ret", "vfR")))
+        lines.append("    vf_end();")
+        lines.append("    return &vfR;")
     elif r["kind"] == "arr_ptr":
         _, lf, ff = arr_fns(r["T"])
         ct = c_type(r["T"], lang)
@@ -480,6 +493,11 @@ def impl_function(f, lang, qual=""):
         lines.append('    vf_log_i("ret", vfR.serial, 1);')
         lines.append("    vf_end();")
         lines.append("    return &vfR;")
+    elif r["kind"] == "cls_ptr" and r.get("free_pattern"):
+        lines.append("    %s *vfR = new %s((%s::vf_quiet())); vf_pool_add(vfR, vfR->serial);   /* pool object: handed back with vf_pool_put, never deleted */" % (r["cls"], r["cls"], r["cls"]))
+        lines.append('    vf_log_i("ret", vfR->serial, 1);')
+        lines.append("    vf_end();")
+        lines.append("    return vfR;")
     elif r["kind"] == "cls_ptr":
         lines.append("    %s *vfR = new %s((%s::vf_quiet()));   /* caller owns */" % (r["cls"], r["cls"], r["cls"]))
         lines.append('    vf_log_i("ret", vfR->serial, 1);')
@@ -527,6 +545,11 @@ def library_sources(lib):
         h += ["#include <string>", "#include <vector>", "#include <cstddef>", "#include <cstdint>"]
     else:
         h += ["#include <stddef.h>", "#include <stdint.h>", "#include <stdbool.h>"]
+    if lib.get("patterns"):
+        h.append("#ifdef __cplusplus\nextern \"C\" {\n#endif")
+        h.append("void vf_pool_put(void *ptr);   /* release routine named by a free_pattern */")
+        h.append("void vf_arr_put(void *ptr);")
+        h.append("#ifdef __cplusplus\n}\n#endif")
     ns = (lib.get("namespace") or "").split()
     for n in ns:
         h.append("namespace %s {" % n)
@@ -553,7 +576,7 @@ def library_sources(lib):
             if f.get("template"):
                 h.append("template<typename ArgType> " + func_decl(f, cxx_only=True) + ";")
             else:
-                h.append(func_decl(f, cxx_only=True) + ";")
+                h.append(('extern "C" ' if f.get("extern_c") and lang == "c++" else "") + func_decl(f, cxx_only=True) + ";")
     if lang == "c":
         h.append("#ifdef __cplusplus\n}\n#endif")
     for n in reversed(ns):
@@ -562,6 +585,8 @@ def library_sources(lib):
     c = ['#include "%s"' % (name + (".hpp" if lang == "c++" else ".h")), '#include "vf_trace.h"', "#include <string.h>"]
     if classes:
         c.append("static long vf_serial_counter = 0;")
+    if lib.get("patterns"):
+        c.append("static void vf_pool_add(void *p, long serial);")
     for cl in classes:
         c.append("long vf_live_%s = 0;" % cl)
     for n in ns:
@@ -580,10 +605,21 @@ def library_sources(lib):
                 c.extend(body)
                 c.append("")
             continue
-        c.extend(impl_function(f, lang))
+        body = impl_function(f, lang)
+        if f.get("extern_c") and lang == "c++":
+            body[0] = 'extern "C" ' + body[0]
+        c.extend(body)
         c.append("")
     for n in reversed(ns):
         c.append("}")
+    if lib.get("patterns"):
+        c.append("static long vf_pool_serial[VF_MAX_OWNED]; static void *vf_pool_obj[VF_MAX_OWNED]; static int vf_pool_n = 0;")
+        c.append("static void vf_pool_add(void *p, long serial) { if (vf_pool_n < VF_MAX_OWNED) { vf_pool_obj[vf_pool_n] = p; vf_pool_serial[vf_pool_n++] = serial; } }")
+        pre = 'extern "C" ' if lang == "c++" else ""
+        c.append(pre + "void vf_pool_put(void *ptr) { int i; long s = -1; for (i = 0; i < vf_pool_n; i++) if (vf_pool_obj[i] == ptr) s = vf_pool_serial[i];"
+                 ' vf_begin("FREE", "pool_put"); vf_log_i("this", s, 1); vf_end(); }')
+        c.append(pre + "void vf_arr_put(void *ptr) { int i; long s = -1; for (i = 0; i < vf_owned_n; i++) if (vf_owned_ptr[i] == ptr) s = i;"
+                 ' vf_begin("FREE", "arr_put"); vf_log_i("blk", s, 1); vf_end(); free(ptr); }')
     # live-object counter visible to the trace marker
     if lang == "c++":
         c.append('extern "C" long vf_live_objects(void) { return 0%s; }' % "".join(" + vf_live_%s" % cl for cl in classes))
@@ -669,7 +705,7 @@ def model_call(f, args, this_serial=None):
     r = f["ret"]
     ret = None
     dr = sub(d, 99)
-    if r["kind"] == "val":
+    if r["kind"] in ("val", "ptr_scalar"):
         ret = out_scalar(dr, r["T"])
         send["ret"] = repr_scalar(ret, r["T"])
     elif r["kind"] in ("cstr", "str_val", "str_cref"):
